@@ -58,6 +58,26 @@ Theorem C03_importance_set : forall st p v i t,
 Proof. exact imp_set_get. Qed.
 Print Assumptions C03_importance_set.
 
+(* at the level of what is WRITTEN ('imp:<particles>=<value>' per tree, in the order of the object's dict): the
+   written parameters say for every particle exactly what the object holds ... *)
+Theorem C03_importance_written_is_held : forall st p, imp_wf st -> imp_denote (imp_written st) p = imp_get st p.
+Proof. exact imp_written_denotes. Qed.
+Print Assumptions C03_importance_written_is_held.
+
+(* ... the setter keeps the object well formed (every particle in exactly one tree, which lists it) ... *)
+Theorem C03_importance_wf_kept : forall st p v, imp_wf st -> imp_wf (imp_set st p v).
+Proof. exact imp_set_wf. Qed.
+Print Assumptions C03_importance_wf_kept.
+
+(* ... so after setting p the written file says v for p and, for every other particle (also those of p's former
+   shared entry), what it said before *)
+Theorem C03_importance_written_after_set : forall st p v q i,
+  imp_wf st -> lookup p (owner st) = Some i ->
+  imp_denote (imp_written (imp_set st p v)) q =
+    if String.eqb q p then Some v else imp_denote (imp_written st) q.
+Proof. exact imp_written_after_set. Qed.
+Print Assumptions C03_importance_written_after_set.
+
 (* the setter before 11534b6 wrote into the shared tree: independence was false (witness: imp:n,p=1, n := 2) *)
 Theorem C03_importance_shared_old_refuted :
   exists st p q v, q <> p /\ imp_wf st /\ imp_get (imp_set_old st p v) q <> imp_get st q.
